@@ -22,6 +22,9 @@ func propC17(c *Ctx, r *Report) {
 	// one history row per entry, pending only while the holding row exists: plain inserts, holding never deleted
 	// (shared with C06-R5)
 	ruleInsertOnly(c, r, buildSQLCat(c), "C17-P11/insert-only")
+	ruleBurnTransferEra(c, r, "C17-P12/burn-transfer-era")
+	// the recorded PEG yield is what was credited, once: a settled request list does not reach the next held height
+	ruleSettleOnceFam(c, r, "C17-P13/settle-once")
 	rb := c.fn("node.Pegnetd.recordBatch")
 	hold := c.fn("node.Pegnetd.ApplyTransactionBatchesInHolding")
 	atbk := c.fn("node.Pegnetd.ApplyTransactionBlock")
